@@ -143,6 +143,19 @@ VARIANTS = [
      "new": "        if orig_id <= self._packet_id_base:\n            if oldest_tracked > orig_id:\n"
             "                logging.warning(f\"Received VERY old packet ID {orig_id}, likely generated invalid ID.\")\n            return\n"
             "        self._packet_id_base = orig_id\n"},
+    {"name": "P R1 the two exclusive branches of track_seen swapped", "file": CIRC, "expect": "silent",
+     "old": "        if orig_id > self._packet_id_base:\n            self._packet_id_base = orig_id\n        elif oldest_tracked > orig_id:\n"
+            "            logging.warning(f\"Received VERY old packet ID {orig_id}, likely generated invalid ID.\")\n",
+     "new": "        if oldest_tracked > orig_id:\n"
+            "            logging.warning(f\"Received VERY old packet ID {orig_id}, likely generated invalid ID.\")\n"
+            "        elif orig_id > self._packet_id_base:\n            self._packet_id_base = orig_id\n"},
+    {"name": "R1 base advanced only for IDs less than 1000 ahead", "file": CIRC, "expect": "C04.R1",
+     "old": "        if orig_id > self._packet_id_base:\n            self._packet_id_base = orig_id\n",
+     "new": "        if orig_id > self._packet_id_base and orig_id - self._packet_id_base < 1000:\n            self._packet_id_base = orig_id\n"},
+    {"name": "R1 base advanced only past the plausibility window's far edge", "file": CIRC, "expect": "C04.R1",
+     "old": "        if orig_id > self._packet_id_base:\n            self._packet_id_base = orig_id\n",
+     "new": "        if orig_id > self._packet_id_base + self._maxlen:\n            pass\n        elif orig_id > self._packet_id_base:\n"
+            "            self._packet_id_base = orig_id\n"},
     # ------------------------------------------------------------------ documented limits
     {"name": "X forward shift boundary < -> <= (value-level)", "file": CIRC, "expect": "miss",
      "old": "if new_id < packet_id and new_id not in self.injections:", "new": "if new_id <= packet_id and new_id not in self.injections:"},
